@@ -29,28 +29,40 @@ def bcast(v, p):
 
 
 def ref_row(kind, param, X, s, e):
-    """Admissible band (lo, hi) for the row of interval [s, e), or 'raise' / 'either'."""
+    """Admissible band (lo, hi) for the row of interval [s, e), or 'raise' / 'either' /
+    'unjudged'.
+
+    Error model ("up to prefix-sum rounding error"): an implementation may keep prefix
+    sums of x, x^2 (or outer products) in the raw coordinates or in coordinates shifted
+    by any value inside the data's range (first row, mean, the fixed mean ...).  The
+    absolute error of a difference of two such prefix sums up to row e is bounded by
+    C * eps * Q with Q_j = e * (2 * max_{t<e} |x_tj| + |m_j|)^2 per column (m = fixed
+    mean, 0 in optimal mode), which dominates sum_{t<e} (x_t - shift)^2 for every such
+    shift.  C = 16."""
     Xs = X[s:e].astype(float)
     Xp = X[:e].astype(float)
     n, p = Xs.shape
-    S1 = np.abs(Xp).sum(0)
-    S2 = (Xp**2).sum(0)
-    d1 = 2 * C * EPS * S1  # error of a prefix-sum difference of x
-    d2 = 2 * C * EPS * S2  # ... of x^2
+    CE = 2 * C * EPS
+    M = np.abs(Xp).max(0)
+
+    def Q(m):
+        return e * (2 * M + np.abs(m)) ** 2
+
     if kind == "l2":
         if param is None:
             m = Xs.mean(0)
             val = ((Xs - m) ** 2).sum(0)
-            err = d2 + 2 * np.abs(Xs.sum(0)) * d1 / n + d1**2 / n + C * EPS * (Xs**2).sum(0)
+            err = CE * Q(0.0)
         else:
             m = bcast(param, p)
             val = ((Xs - m) ** 2).sum(0)
-            err = d2 + 2 * np.abs(m) * d1 + C * EPS * ((Xs**2).sum(0) + 2 * np.abs(m) * np.abs(Xs).sum(0) + n * m**2)
+            err = CE * Q(m)
+        err = err + 4 * C * EPS * np.abs(val)
         return val - err, val + err
     if kind == "gv":
         if param is None:
             v = Xs.var(0)
-            dv = (d2 + 2 * np.abs(Xs.sum(0)) * d1 / n + d1**2 / n) / n + C * EPS * ((Xs**2).sum(0) / n)
+            dv = CE * Q(0.0) / n + 4 * C * EPS * v
             lo = np.maximum(v - dv, 1e-16)
             hi = np.maximum(v + dv, 1e-16)
 
@@ -65,11 +77,7 @@ def ref_row(kind, param, X, s, e):
         var = bcast(var, p)
         q = ((Xs - m) ** 2).sum(0)
         val = n * np.log(2 * np.pi * var) + q / var
-        err = (
-            (d2 + 2 * np.abs(m) * d1 + C * EPS * ((Xs**2).sum(0) + 2 * np.abs(m) * np.abs(Xs).sum(0) + n * m**2)) / var
-            + 4 * C * EPS * np.abs(val)
-            + C * EPS * n * np.abs(np.log(2 * np.pi * var))
-        )
+        err = CE * Q(m) / var + 4 * C * EPS * (np.abs(val) + q / var) + C * EPS * n * np.abs(np.log(2 * np.pi * var))
         return val - err, val + err
     if kind == "gc":
         if param is None:
@@ -83,8 +91,8 @@ def ref_row(kind, param, X, s, e):
             const = bool(np.any(Xs.max(0) == Xs.min(0)))
             dup = any(np.array_equal(Xs[:, i], Xs[:, j]) for i in range(p) for j in range(i))
             if isint and const:
-                # deviations of a constant integer column are exactly 0: a zero row and
-                # column in the covariance, determinant exactly 0 in any evaluation order
+                # a constant integer column: variance exactly 0 with exact partial sums
+                # in any evaluation order (also after an integer shift), determinant <= 0
                 return "raise"
             if dup or lam <= 1e-8 * tr:
                 # duplicated columns: singular in exact arithmetic, but BLAS may round
@@ -92,7 +100,7 @@ def ref_row(kind, param, X, s, e):
                 return "either"
             _, ld = np.linalg.slogdet(c)
             val = n * p * np.log(2 * np.pi) + n * ld + p * n
-            delta = C * EPS * float(S2.max()) / n * 2
+            delta = CE * float(Q(0.0).max()) / n
             if delta / lam > 0.1:
                 return "unjudged"
             err = 2 * n * p * delta / lam + 1e-12 * (abs(val) + n * p)
@@ -104,10 +112,7 @@ def ref_row(kind, param, X, s, e):
         ic = np.linalg.inv(c)
         q = float(np.einsum("ij,jk,ik->", Xs - m, ic, Xs - m))
         val = n * p * np.log(2 * np.pi) + n * ld + q
-        err = (
-            2 * C * EPS * float(np.abs(ic).sum(1).max()) * float(((np.abs(Xp) + np.abs(m)) ** 2).sum())
-            + 1e-12 * (abs(val) + abs(q) + n * p)
-        )
+        err = CE * float(np.abs(ic).sum(1).max()) * float(Q(m).sum()) * p + 1e-12 * (abs(val) + abs(q) + n * p)
         return np.array([val - err]), np.array([val + err])
     raise ValueError(kind)
 
